@@ -50,8 +50,11 @@ PLAIN = [
     ("CcSyntax", {"Defects": '{"no_quoted_args"}', "Tier": '"quick"', "Export": "FALSE"}, "CanonicalOK", None),
     ("Footprint", {"Defects": '{"append_dup"}', "URIs": "{0}", "ValsA": "{0, 1}", "ValsB": "{0}", "VarySets": "{0, 4}", "Export": "FALSE", "MaxHist": "0"}, "Bounded", None),
     ("FsLayout", {"DirMarker": "FALSE", "Threshold": "1", "Frag": "2", "MaxLen": "4"}, "NoFailure", "Small"),
-    ("FsAtomic", {"Writers": "{1, 2}", "Readers": "{1}", "Deleters": "{1}", "Vals": "{1, 2}", "Chunks": "2", "WriteMode": '"inplace"', "TmpNames": '"unique"'}, "NoTornRead", None),
-    ("FsAtomic", {"Writers": "{1, 2}", "Readers": "{1}", "Deleters": "{1}", "Vals": "{1, 2}", "Chunks": "2", "WriteMode": '"rename"', "TmpNames": '"shared"'}, "NoTornRead", None),
+    ("FsAtomic", {"Writers": "{1, 2}", "Readers": "{1}", "Deleters": "{1}", "Vals": "{1, 2}", "Chunks": "2", "WriteMode": '"inplace"', "TmpNames": '"unique"', "Touch": '"off"'}, "NoTornRead", None),
+    ("FsAtomic", {"Writers": "{1, 2}", "Readers": "{1}", "Deleters": "{1}", "Vals": "{1, 2}", "Chunks": "2", "WriteMode": '"rename"', "TmpNames": '"shared"', "Touch": '"off"'}, "NoTornRead", None),
+    ("FsAtomic", {"Writers": "{1, 2}", "Readers": "{1}", "Deleters": "{}", "Vals": "{1, 2}", "Chunks": "2", "WriteMode": '"unlink_rename"', "TmpNames": '"unique"', "Touch": '"off"'}, "NoLostValue", None),
+    ("FsAtomic", {"Writers": "{1, 2}", "Readers": "{}", "Deleters": "{}", "Vals": "{1, 2}", "Chunks": "1", "WriteMode": '"unlink_rename"', "TmpNames": '"unique"', "Touch": '"off"'}, "LiveKept", None),
+    ("FsAtomic", {"Writers": "{1}", "Readers": "{1}", "Deleters": "{1}", "Vals": "{1}", "Chunks": "1", "WriteMode": '"rename"', "TmpNames": '"unique"', "Touch": '"strict"'}, "NoTornRead", None),
 ]
 
 # fix commit (by subject prefix) -> properties whose check must flag its reversal
